@@ -509,9 +509,11 @@ def jdec(j, empty=None):
 
 # ---------------------------------------------------------------- generic correspondence decision
 
-def correspond(R, header, report_fn, cases, name, point, shard=400, timeout=900):
+def correspond(R, header, report_fn, cases, name, point, shard=400, timeout=900, search=None):
     """cases: list of dicts {recipe, coq, key, nontrivial}.  Evaluates the Coq report
     ('m s i cls' per case) and applies the decision table of DESIGN.md 3.6.
+    search: optional function(list of drifting cases) -> further cases, used to look for a concrete failing input when the
+    correspondence broke on inputs that do not themselves violate the spec.
     Returns the rows."""
     if not cases:
         return []
@@ -522,8 +524,9 @@ def correspond(R, header, report_fn, cases, name, point, shard=400, timeout=900)
         return []
     kf = {f['id'] for f in known_findings()['findings'] if f['property'] == R.prop}
     drift = []
-    found = 0
-    for c, row in zip(cases, rows):
+    found = [0]
+
+    def decide(c, row):
         parts = row.split()
         m, s, i, cls = parts[0], parts[1], parts[2], parts[3]
         R.count(c['key'], c['nontrivial'])
@@ -532,7 +535,7 @@ def correspond(R, header, report_fn, cases, name, point, shard=400, timeout=900)
         elif m == '1' and s == '1' and i == '0':
             # the modelled layer matches, yet the property-level oracle fails on the implementation: the part of the code the
             # model abstracts (e.g. the generated class as a function of the argument map) does not behave as assumed
-            found += 1
+            found[0] += 1
             R.violation('%s: the property-level oracle fails on the implementation for this input: %s' % (point, c.get('oracle_fail') or ''),
                         {'recipe': c['recipe'], 'row': row, 'correspondence': point, 'input_found': True, 'oracle': c.get('oracle_fail')})
         elif m == '1':
@@ -540,21 +543,34 @@ def correspond(R, header, report_fn, cases, name, point, shard=400, timeout=900)
                 if cls != '-' and cls in kf:
                     R.known(cls)
                 else:
-                    found += 1
+                    found[0] += 1
                     R.violation('%s: implementation (= model) violates the spec outside every listed defect class (class=%s)' % (point, cls),
                                 {'recipe': c['recipe'], 'row': row, 'correspondence': point, 'input_found': True})
         else:
             drift.append((c, row))
             # a listed class only excuses inputs on which the unchanged code (= the model) already failed the spec
             if i == '0' and not (s == '0' and cls != '-' and cls in kf):
-                found += 1
+                found[0] += 1
                 R.violation('%s: implementation differs from the model AND from the spec on this input' % point,
                             {'recipe': c['recipe'], 'row': row, 'correspondence': point, 'input_found': True})
             elif i == '0':
                 R.known(cls)
+
+    for c, row in zip(cases, rows):
+        decide(c, row)
+    if drift and not found[0] and search is not None:
+        more = search([d[0] for d in drift])
+        if more:
+            try:
+                rows2 = eval_report(header, [c['coq'] for c in more], report_fn, name + '_search', shard=shard, timeout=timeout)
+                R.extra['search_cases'] = R.extra.get('search_cases', 0) + len(more)
+                for c, row in zip(more, rows2):
+                    decide(c, row)
+            except RuntimeError as e:
+                R.broken.append('correspondence %s (search) could not be evaluated: %s' % (point, str(e)[:1500]))
     R.extra.setdefault('model_impl_mismatches', 0)
     R.extra['model_impl_mismatches'] += len(drift)
-    if drift and not found:
+    if drift and not found[0]:
         R.violation('%s: implementation and model disagree on %d input(s) (correspondence broken); none of them violates '
                     'the spec, so no failing input was found' % (point, len(drift)),
                     {'broken': 'correspondence ' + point, 'examples': [d[0]['recipe'] for d in drift[:5]],
